@@ -116,7 +116,7 @@ static bool pregate_pair(const node& n, const face& f) {
 static uint64_t g_div_seed = 0;
 static uint64_t div_rng(int site, uint64_t ctx) { return hash_combine(hash_combine(g_div_seed, (uint64_t)site + 31), ctx); }
 struct FI { V3 a, b, c, ctr; R rad; const face* f; };
-struct Brute { long within = 0, missing = 0, gated_out = 0; std::string msg; std::vector<std::vector<char>> reach; std::vector<std::vector<FI>> F; };
+struct Brute { long within = 0, missing = 0, gated_out = 0, missing_forbidden = 0; std::string msg, msg_forbidden; std::vector<std::vector<char>> reach; std::vector<std::vector<FI>> F; };
 // every cross-cell (node, face) pair closer than the largest cut-off (minus the grey zone) that passes the model's own pre-gates must be in P
 static Brute brute(const std::vector<cell_ptr>& A, const std::vector<std::vector<V3>>& X0, const std::unordered_set<PairKey, PairHash>& P, const Tissue& t, double cmax, R GZ) {
     Brute b; long& within = b.within; long& missing = b.missing; long& gated_out = b.gated_out; std::string& miss_msg = b.msg; auto& reach = b.reach; auto& F = b.F;
@@ -130,7 +130,15 @@ static Brute brute(const std::vector<cell_ptr>& A, const std::vector<std::vector
                     if (d < cmax * (1 + GZ)) { reach[k1][ni] = 1; reach[k2][cell_tester::n1(*x.f)] = 1; reach[k2][cell_tester::n2(*x.f)] = 1; reach[k2][cell_tester::n3(*x.f)] = 1; }
                     if (!(d < cmax * (1 - GZ))) continue; within++;
                     if (!g1 || !pregate_pair(n, *x.f)) { gated_out++; continue; }
-                    if (!P.count({(uint32_t)k1, (uint32_t)ni, (uint32_t)k2, x.f->get_local_id()})) { missing++; if (miss_msg.empty()) { miss_msg = "node " + std::to_string(ni) + " of cell " + std::to_string(k1) + " (class " + std::to_string(t.cls[k1]) + ") is " + std::to_string((double)(d / cmax)) + " cut-offs from face " + std::to_string(x.f->get_local_id()) + " of cell " + std::to_string(k2) + " but the pair was never presented to the contact rules"; } } } } } }
+                    if (!P.count({(uint32_t)k1, (uint32_t)ni, (uint32_t)k2, x.f->get_local_id()})) {
+                        // C07: a node on the forbidden side of this face (straight below / above its interior, within the repulsion range, repulsive face type) that never
+                        // reaches the contact rule is not pushed back by it
+                        { int region = -1; V3 q2; orc::closest_on_triangle(p, x.a, x.b, x.c, q2, &region); V3 nrm = (x.b - x.a).cross(x.c - x.a); const R nn = nrm.norm(); const int cl1 = t.cls[k1], cl2 = t.cls[k2];
+                          const bool inverted = (cl1 == 0 && cl2 == 1) || (cl1 == 3 && cl2 == 0); const R side = nn > 0 ? (p - q2).dot(nrm) / nn : 0; const bool forbidden = inverted ? side > 0 : side < 0;
+                          const R rep_range = (CONTACT_MODEL_INDEX == 0) ? t.P.contact_cutoff_repulsion_ : cmax; const double krep = A[k2]->get_cell_type()->face_types_[cell_tester::type_id(*x.f)].repulsion_strength_;
+                          if (region == 0 && forbidden && krep > 0 && std::fabs(side) > 1e-9L * (x.a - x.b).norm() && d < rep_range * (1 - GZ)) { b.missing_forbidden++;
+                              if (b.msg_forbidden.empty()) b.msg_forbidden = "node " + std::to_string(ni) + " of cell " + std::to_string(k1) + " (class " + std::to_string(cl1) + ") lies " + std::to_string((double)(d / rep_range)) + " repulsion ranges on the forbidden side of face " + std::to_string(x.f->get_local_id()) + " of cell " + std::to_string(k2) + " (class " + std::to_string(cl2) + "), over the interior of the triangle, and the pair never reaches the contact rule: nothing pushes the node back"; } }
+                        missing++; if (miss_msg.empty()) { miss_msg = "node " + std::to_string(ni) + " of cell " + std::to_string(k1) + " (class " + std::to_string(t.cls[k1]) + ") is " + std::to_string((double)(d / cmax)) + " cut-offs from face " + std::to_string(x.f->get_local_id()) + " of cell " + std::to_string(k2) + " but the pair was never presented to the contact rules"; } } } } } }
     return b;
 }
 
@@ -152,6 +160,7 @@ static std::string tissue_case(const Args& a, long i) {
     // ---- brute force over all cross-cell node/face pairs (bounding-sphere prefilter at 2 cut-offs, independent of any grid) -------------
     Brute br = brute(A, X0, P, t, cmax, GZ);
     long within = br.within, missing = br.missing, gated_out = br.gated_out; std::vector<std::vector<char>>& reach = br.reach; std::vector<std::vector<FI>>& F = br.F; std::string& miss_msg = br.msg;
+    if (br.missing_forbidden && a.geti("prefer_c07", 0)) c.viol("c07.node_on_forbidden_side_not_pushed_back", br.msg_forbidden + " (" + std::to_string(br.missing_forbidden) + " such pairs)");
     if (missing) c.viol("c06.pair_within_cutoff_not_presented", miss_msg + " (" + std::to_string(missing) + " such pairs)");
     // ---- C07 at tissue level -----------------------------------------------------------------------------------------------------------------
     V3 sum; R sabs = 0, fmax = 0; long forced = 0;
